@@ -165,4 +165,728 @@ theorem elems_spec {h : Heap} (hI : Inv h) {f : Nat} {n : Id} {l : List Id} (hl 
     x ∈ l ↔ AncOrSelf h n x ∧ (h x).kind = .elem :=
   ⟨fun hx => elems_sound hI f n l hl x hx, fun ⟨ha, hk⟩ => elems_complete hI hl ha hk⟩
 
+theorem anc_depth {h : Heap} {d : Id → Nat} (hd : ∀ c p, (h c).parent = some p → d p < d c) {a x : Id}
+    (ha : AncOrSelf h a x) : d a ≤ d x := by
+  induction ha with
+  | refl => exact Nat.le_refl _
+  | step hpx _ ih => exact Nat.le_trans ih (Nat.le_of_lt (hd _ _ hpx))
+
+/-- the ancestors of a node form a chain -/
+theorem anc_chain {h : Heap} {a b x : Id} (ha : AncOrSelf h a x) (hb : AncOrSelf h b x) :
+    AncOrSelf h a b ∨ AncOrSelf h b a := by
+  induction ha with
+  | refl => exact Or.inr hb
+  | @step x p hpx hap ih =>
+    cases hb with
+    | refl => exact Or.inl (AncOrSelf.step hpx hap)
+    | step hpx' hbp => rw [hpx] at hpx'; cases hpx'; exact ih hbp
+
+theorem anc_of_no_parent {h : Heap} {a x : Id} (hp : (h x).parent = none) (ha : AncOrSelf h a x) : x = a := by
+  cases ha with
+  | refl => rfl
+  | step hpx _ => rw [hp] at hpx; cases hpx
+
+theorem elemsL_nodup {h : Heap} {f : Nat} : ∀ {ks l : List Id}, ks.Nodup →
+    (∀ k ∈ ks, ∀ lk, elems h f k = some lk → lk.Nodup) →
+    (∀ k1 ∈ ks, ∀ k2 ∈ ks, k1 ≠ k2 → ∀ l1 l2, elems h f k1 = some l1 → elems h f k2 = some l2 → ∀ x ∈ l1, x ∉ l2) →
+    elemsL h f ks = some l → l.Nodup := by
+  intro ks
+  induction ks with
+  | nil => intro l _ _ _ hl; rw [elemsL_nil] at hl; cases hl; exact List.nodup_nil
+  | cons k r ih =>
+    intro l hnd hk hdis hl
+    obtain ⟨a, b, ha, hb, rfl⟩ := elemsL_cons_some hl
+    have hnd' := List.nodup_cons.mp hnd
+    rw [List.nodup_append]
+    refine ⟨hk k (by simp) a ha, ih hnd'.2 (fun k' hk' => hk k' (by simp [hk']))
+      (fun k1 h1 k2 h2 => hdis k1 (by simp [h1]) k2 (by simp [h2])) hb, ?_⟩
+    intro x hxa y hyb e
+    subst e
+    obtain ⟨k', hk', lk, hlk, hxk⟩ := (elemsL_mem hb x).mp hyb
+    have hne : k ≠ k' := fun e => hnd'.1 (e ▸ hk')
+    exact hdis k (by simp) k' (by simp [hk']) hne a lk ha hlk x hxa hxk
+
+/-- in a consistent forest the traversal lists every node once -/
+theorem elems_nodup {h : Heap} (hI : Inv h) (hA : Acyclic h) : ∀ (f : Nat) (n : Id) (l : List Id),
+    elems h f n = some l → l.Nodup := by
+  obtain ⟨d, hd⟩ := hA
+  intro f
+  induction f with
+  | zero =>
+    intro n l hl
+    by_cases hk : (h n).kind = .elem
+    · simp [elems_zero, hk] at hl
+    · rw [elems_of_not_elem hk] at hl; cases hl; exact List.nodup_nil
+  | succ f ih =>
+    intro n l hl
+    by_cases hk : (h n).kind = .elem
+    · obtain ⟨f', l', hf, hl', rfl⟩ := elems_elem_some hk hl
+      cases hf
+      have hbelow : ∀ k ∈ (h n).kids, ∀ lk, elems h f k = some lk → ∀ x ∈ lk, d n < d x := by
+        intro k hkm lk hlk x hx
+        have hpk := (hI.parent_iff n k).mp hkm
+        have := anc_depth hd (elems_sound hI f k lk hlk x hx).1
+        have := hd k n hpk
+        omega
+      rw [List.nodup_cons]
+      constructor
+      · intro hn
+        obtain ⟨k, hkm, lk, hlk, hxk⟩ := (elemsL_mem hl' n).mp hn
+        have := hbelow k hkm lk hlk n hxk
+        omega
+      · apply elemsL_nodup (hI.nodup n) (fun k _ lk hlk => ih k lk hlk) _ hl'
+        intro k1 h1 k2 h2 hne l1 l2 hl1 hl2 x hx1 hx2
+        have a1 := (elems_sound hI f k1 l1 hl1 x hx1).1
+        have a2 := (elems_sound hI f k2 l2 hl2 x hx2).1
+        have hp1 := (hI.parent_iff n k1).mp h1
+        have hp2 := (hI.parent_iff n k2).mp h2
+        rcases anc_chain a1 a2 with hc | hc
+        · cases hc with
+          | refl => exact hne rfl
+          | step hpx hrest =>
+            rw [hp2] at hpx; cases hpx
+            have := anc_depth hd hrest
+            have := hd k1 n hp1
+            omega
+        · cases hc with
+          | refl => exact hne rfl
+          | step hpx hrest =>
+            rw [hp1] at hpx; cases hpx
+            have := anc_depth hd hrest
+            have := hd k2 n hp2
+            omega
+    · rw [elems_of_not_elem hk] at hl; cases hl; exact List.nodup_nil
+
+/-! ### the element-level query is the filter over the subtree, in document order -/
+
+theorem getByObj_spec (h : Heap) (q : Nat) : ∀ (f : Nat),
+    (∀ n acc, (h n).kind = .elem →
+      getByObj h q f n acc = (elems h f n).map (fun l => acc ++ l.filter (fun x => (h x).qn = q))) ∧
+    (∀ ks acc, getByObjL h q f ks acc = (elemsL h f ks).map (fun l => acc ++ l.filter (fun x => (h x).qn = q))) := by
+  intro f
+  induction f with
+  | zero =>
+    have h1 : ∀ n acc, (h n).kind = .elem →
+        getByObj h q 0 n acc = (elems h 0 n).map (fun l => acc ++ l.filter (fun x => (h x).qn = q)) := by
+      intro n acc hk; simp [getByObj, elems_zero, hk]
+    refine ⟨h1, ?_⟩
+    intro ks
+    induction ks with
+    | nil => intro acc; simp [getByObjL, elemsL_nil]
+    | cons k r ih =>
+      intro acc
+      rw [getByObjL, elemsL_cons]
+      by_cases hk : (h k).kind = .elem
+      · simp only [hk, if_true, h1 k acc hk, elems_zero]; simp
+      · simp only [hk, if_false, ih acc, elems_of_not_elem hk]
+        cases elemsL h 0 r <;> simp
+  | succ f ih =>
+    have h1 : ∀ n acc, (h n).kind = .elem →
+        getByObj h q (f + 1) n acc = (elems h (f + 1) n).map (fun l => acc ++ l.filter (fun x => (h x).qn = q)) := by
+      intro n acc hk
+      rw [getByObj, ih.2, elems_succ]
+      simp only [hk, if_true]
+      cases elemsL h f (h n).kids with
+      | none => simp
+      | some l =>
+        by_cases hq : (h n).qn = q
+        · simp [hq]
+        · simp [hq]
+    refine ⟨h1, ?_⟩
+    intro ks
+    induction ks with
+    | nil => intro acc; simp [getByObjL, elemsL_nil]
+    | cons k r ih2 =>
+      intro acc
+      rw [getByObjL, elemsL_cons]
+      by_cases hk : (h k).kind = .elem
+      · simp only [hk, if_true, h1 k acc hk]
+        cases hek : elems h (f + 1) k with
+        | none => simp
+        | some a =>
+          simp only [Option.map_some]
+          rw [ih2]
+          cases elemsL h (f + 1) r <;> simp [List.filter_append, List.append_assoc]
+      · simp only [hk, if_false, ih2 acc, elems_of_not_elem hk]
+        cases elemsL h (f + 1) r <;> simp
+
+/-- **C09 (element-level query)**: `element.getElementsByType(f)` returns exactly the elements of the
+    subtree (the element itself included) whose qname is the one asked for, in document order —
+    unconditionally (no invariant, any heap), also when it fails (deeper than the recursion budget). -/
+theorem elByType_eq_filter (h : Heap) (n : Id) (q : Nat) (hk : (h n).kind = .elem) :
+    elByType h n q = (elemsUnder h n).map (fun l => l.filter (fun x => (h x).qn = q)) := by
+  unfold elByType elemsUnder
+  rw [(getByObj_spec h q FUEL).1 n [] hk]
+  cases elems h FUEL n <;> simp
+
+/-! ### closed forms of the index maintenance -/
+
+/-- the heaps differ at most in attribute values -/
+def SameLinks (h h' : Heap) : Prop :=
+  ∀ y, (h' y).kids = (h y).kids ∧ (h' y).parent = (h y).parent ∧ (h' y).prev = (h y).prev ∧
+    (h' y).next = (h y).next ∧ (h' y).kind = (h y).kind ∧ (h' y).qn = (h y).qn
+
+theorem SameLinks.refl (h : Heap) : SameLinks h h := fun _ => ⟨rfl, rfl, rfl, rfl, rfl, rfl⟩
+theorem SameLinks.trans {h1 h2 h3 : Heap} (a : SameLinks h1 h2) (b : SameLinks h2 h3) : SameLinks h1 h3 := by
+  intro y
+  obtain ⟨a1, a2, a3, a4, a5, a6⟩ := a y
+  obtain ⟨b1, b2, b3, b4, b5, b6⟩ := b y
+  exact ⟨b1.trans a1, b2.trans a2, b3.trans a3, b4.trans a4, b5.trans a5, b6.trans a6⟩
+theorem sameLinks_setAttrs (h : Heap) (x : Id) (v : List (Nat × Nat)) : SameLinks h (setAttrs h x v) := by
+  intro y; simp
+
+theorem forEach_run_pure (f : Id → DM Unit) (g : Id → DState → DState)
+    (hf : ∀ x s, (f x).run s = (g x s, .ok ())) : ∀ (l : List Id) (s : DState),
+    (forEach f l).run s = (l.foldl (fun s x => g x s) s, .ok ()) := by
+  intro l
+  induction l with
+  | nil => intro s; rfl
+  | cons x r ih => intro s; simp only [forEach, DomDoc.run_bind, hf, List.foldl_cons]; exact ih _
+
+theorem walk_run (n : Id) (s : DState) : (walk n).run s =
+    match elemsUnder s.heap n with
+    | some l => (s, .ok l)
+    | none => (s, .error .RecursionError) := by
+  unfold walk
+  simp only [DomDoc.run_bind_rd]
+  cases elemsUnder s.heap n <;> rfl
+
+/-- `dropStyleEntry` as a function -/
+def dropStylePure (x : Id) (s : DState) : DState :=
+  if (s.heap x).qn = QN_STYLE then
+    match lookupAttr KEY_STYLE_NAME (s.heap x).attrs with
+    | none => s
+    | some name => if sdGet s.sdict name = some x then { s with sdict := sdDel s.sdict name } else s
+  else s
+
+theorem dropStyleEntry_run (x : Id) (s : DState) : (dropStyleEntry x).run s = (dropStylePure x s, .ok ()) := by
+  unfold dropStyleEntry dropStylePure
+  simp only [DomDoc.run_bind_rd]
+  by_cases hq : (s.heap x).qn = QN_STYLE
+  · simp only [hq, if_true, DomDoc.run_bind_rd]
+    cases hn : lookupAttr KEY_STYLE_NAME (s.heap x).attrs with
+    | none => rfl
+    | some name =>
+      simp only [DomDoc.run_bind_rd]
+      by_cases hs : sdGet s.sdict name = some x <;> simp [hs]
+  · simp [hq]
+
+/-- what `remove_from_caches` does for one element -/
+def removeOnePure (x : Id) (s : DState) : DState := dropStylePure x (edDrop x s)
+
+theorem removeOne_run (x : Id) (s : DState) : (removeOne x).run s = (removeOnePure x s, .ok ()) := by
+  unfold removeOne removeOnePure
+  simp only [DomDoc.run_bind_upd, dropStyleEntry_run]
+
+/-- `__register_stylename` as a function -/
+def registerPure (x : Id) (s : DState) : DState :=
+  match lookupAttr KEY_STYLE_NAME (s.heap x).attrs with
+  | none => s
+  | some name =>
+    match (s.heap x).parent with
+    | none => s
+    | some pp =>
+      if (s.heap pp).qn = QN_STYLES ∨ (s.heap pp).qn = QN_AUTOSTYLES then
+        if (sdGet s.sdict name).isSome then
+          { s with fix := storeAttr name (mName name) s.fix,
+                   heap := setAttrs s.heap x (storeAttr KEY_STYLE_NAME (mName name) (s.heap x).attrs),
+                   sdict := sdSet s.sdict (mName name) x }
+        else { s with sdict := sdSet s.sdict name x }
+      else s
+
+theorem registerStyle_run (x : Id) (s : DState) : (registerStyle x).run s = (registerPure x s, .ok ()) := by
+  unfold registerStyle registerPure
+  simp only [DomDoc.run_bind_rd]
+  cases hn : lookupAttr KEY_STYLE_NAME (s.heap x).attrs with
+  | none => rfl
+  | some name =>
+    simp only [DomDoc.run_bind_rd]
+    cases hp : (s.heap x).parent with
+    | none => rfl
+    | some pp =>
+      simp only [DomDoc.run_bind_rd]
+      by_cases hq : (s.heap pp).qn = QN_STYLES ∨ (s.heap pp).qn = QN_AUTOSTYLES
+      · by_cases hs : (sdGet s.sdict name).isSome
+        · simp [hq, hs]
+        · simp [hq, hs]
+      · simp [hq]
+
+def registerIfPure (x : Id) (s : DState) : DState :=
+  if (s.heap x).qn = QN_STYLE then registerPure x s else s
+
+theorem registerIfStyle_run (x : Id) (s : DState) : (registerIfStyle x).run s = (registerIfPure x s, .ok ()) := by
+  unfold registerIfStyle registerIfPure
+  simp only [DomDoc.run_bind_rd]
+  by_cases hq : (s.heap x).qn = QN_STYLE <;> simp [hq, registerStyle_run]
+
+def fixRefPure (x : Id) (s : DState) : DState :=
+  match lookupAttr KEY_TEXT_STYLE_NAME (s.heap x).attrs with
+  | none => s
+  | some r =>
+    match lookupAttr r s.fix with
+    | none => s
+    | some nw => { s with heap := setAttrs s.heap x (storeAttr KEY_TEXT_STYLE_NAME nw (s.heap x).attrs) }
+
+theorem fixStyleRef_run (x : Id) (s : DState) : (fixStyleRef x).run s = (fixRefPure x s, .ok ()) := by
+  unfold fixStyleRef fixRefPure
+  simp only [DomDoc.run_bind_rd]
+  cases lookupAttr KEY_TEXT_STYLE_NAME (s.heap x).attrs with
+  | none => rfl
+  | some r =>
+    simp only [DomDoc.run_bind_rd]
+    cases lookupAttr r s.fix <;> rfl
+
+/-- what `build_caches` does for one element -/
+def buildPure (x : Id) (s : DState) : DState := fixRefPure x (registerIfPure x (edAppend x s))
+
+theorem buildCaches_run (x : Id) (s : DState) : (buildCaches x).run s = (buildPure x s, .ok ()) := by
+  unfold buildCaches buildPure
+  simp only [DomDoc.run_bind, DomDoc.run_upd, registerIfStyle_run, fixStyleRef_run]
+
+/-! ### the three traversals as folds, and what they do to the index -/
+
+theorem setOwnerRec_run (n : Id) (v : Bool) (s : DState) : (setOwnerRec n v).run s =
+    match elemsUnder s.heap n with
+    | some l => (l.foldl (fun s x => setOwned s x v) s, .ok ())
+    | none => (s, .error .RecursionError) := by
+  unfold setOwnerRec
+  rw [DomDoc.run_bind, walk_run]
+  cases elemsUnder s.heap n with
+  | none => rfl
+  | some l => exact forEach_run_pure _ (fun x s => setOwned s x v) (fun _ _ => rfl) l s
+
+theorem removeFromCaches_run (n : Id) (s : DState) : (removeFromCaches n).run s =
+    match elemsUnder s.heap n with
+    | some l => (l.foldl (fun s x => removeOnePure x s) s, .ok ())
+    | none => (s, .error .RecursionError) := by
+  unfold removeFromCaches
+  rw [DomDoc.run_bind, walk_run]
+  cases elemsUnder s.heap n with
+  | none => rfl
+  | some l => exact forEach_run_pure _ removeOnePure removeOne_run l s
+
+theorem rebuildCaches_run (n : Id) (s : DState) : (rebuildCaches n).run s =
+    match elemsUnder s.heap n with
+    | some l => (l.foldl (fun s x => buildPure x s) s, .ok ())
+    | none => (s, .error .RecursionError) := by
+  unfold rebuildCaches
+  rw [DomDoc.run_bind, walk_run]
+  cases elemsUnder s.heap n with
+  | none => rfl
+  | some l => exact forEach_run_pure _ buildPure buildCaches_run l s
+
+/-- `element_dict.get(q, [])` -/
+abbrev ed (s : DState) (q : Nat) : List Id := edGet s.edict q
+
+theorem edDrop_ed (x : Id) (s : DState) (q : Nat) :
+    ed (edDrop x s) q = if q = (s.heap x).qn then (ed s q).erase x else ed s q := by
+  unfold edDrop ed
+  by_cases hm : x ∈ edGet s.edict (s.heap x).qn
+  · simp only [hm, if_true, edGet_edSet]
+    by_cases hq : q = (s.heap x).qn
+    · subst hq; simp
+    · simp [hq]
+  · simp only [hm, if_false]
+    by_cases hq : q = (s.heap x).qn
+    · subst hq; simp [List.erase_of_not_mem hm]
+    · simp [hq]
+
+theorem edDrop_same (x : Id) (s : DState) :
+    (edDrop x s).heap = s.heap ∧ (edDrop x s).ownedL = s.ownedL ∧ (edDrop x s).top = s.top ∧
+    (edDrop x s).sdict = s.sdict ∧ (edDrop x s).fix = s.fix := by
+  unfold edDrop; split <;> simp
+
+theorem dropStylePure_same (x : Id) (s : DState) :
+    (dropStylePure x s).heap = s.heap ∧ (dropStylePure x s).ownedL = s.ownedL ∧ (dropStylePure x s).top = s.top ∧
+    (dropStylePure x s).edict = s.edict ∧ (dropStylePure x s).fix = s.fix := by
+  unfold dropStylePure
+  split
+  · split
+    · simp
+    · split <;> simp
+  · simp
+
+theorem removeOnePure_same (x : Id) (s : DState) :
+    (removeOnePure x s).heap = s.heap ∧ (removeOnePure x s).ownedL = s.ownedL ∧ (removeOnePure x s).top = s.top := by
+  unfold removeOnePure
+  obtain ⟨a1, a2, a3, _, _⟩ := dropStylePure_same x (edDrop x s)
+  obtain ⟨b1, b2, b3, _, _⟩ := edDrop_same x s
+  exact ⟨a1.trans b1, a2.trans b2, a3.trans b3⟩
+
+theorem removeOnePure_ed (x : Id) (s : DState) (q : Nat) :
+    ed (removeOnePure x s) q = if q = (s.heap x).qn then (ed s q).erase x else ed s q := by
+  unfold removeOnePure ed
+  rw [(dropStylePure_same x (edDrop x s)).2.2.2.1]
+  exact edDrop_ed x s q
+
+theorem foldRemove_same : ∀ (l : List Id) (s : DState),
+    (l.foldl (fun s x => removeOnePure x s) s).heap = s.heap ∧
+    (l.foldl (fun s x => removeOnePure x s) s).ownedL = s.ownedL ∧
+    (l.foldl (fun s x => removeOnePure x s) s).top = s.top := by
+  intro l
+  induction l with
+  | nil => intro s; exact ⟨rfl, rfl, rfl⟩
+  | cons x r ih =>
+    intro s
+    obtain ⟨a1, a2, a3⟩ := ih (removeOnePure x s)
+    obtain ⟨b1, b2, b3⟩ := removeOnePure_same x s
+    exact ⟨a1.trans b1, a2.trans b2, a3.trans b3⟩
+
+/-- after `remove_from_caches` over `l`: exactly the listed elements are gone from the index -/
+theorem foldRemove_ed : ∀ (l : List Id) (s : DState), (∀ q, (ed s q).Nodup) →
+    (∀ q, (ed (l.foldl (fun s x => removeOnePure x s) s) q).Nodup) ∧
+    (∀ q y, y ∈ ed (l.foldl (fun s x => removeOnePure x s) s) q ↔
+      y ∈ ed s q ∧ ¬ (y ∈ l ∧ (s.heap y).qn = q)) := by
+  intro l
+  induction l with
+  | nil => intro s hnd; exact ⟨hnd, fun q y => by simp⟩
+  | cons x r ih =>
+    intro s hnd
+    have hnd1 : ∀ q, (ed (removeOnePure x s) q).Nodup := by
+      intro q; rw [removeOnePure_ed]; split
+      · exact (hnd q).erase x
+      · exact hnd q
+    obtain ⟨h1, h2⟩ := ih (removeOnePure x s) hnd1
+    refine ⟨h1, ?_⟩
+    intro q y
+    simp only [List.foldl_cons]
+    rw [h2 q y, removeOnePure_ed, (removeOnePure_same x s).1]
+    by_cases hq : q = (s.heap x).qn
+    · simp only [hq, if_true]
+      rw [(hnd _).mem_erase_iff]
+      by_cases hyx : y = x
+      · subst hyx; simp
+      · simp [hyx]
+    · simp only [hq, if_false]
+      by_cases hyx : y = x
+      · subst hyx; simp [Ne.symm hq]
+      · simp [hyx]
+
+theorem registerPure_view (x : Id) (s : DState) :
+    SameLinks s.heap (registerPure x s).heap ∧ (registerPure x s).ownedL = s.ownedL ∧
+    (registerPure x s).top = s.top ∧ (registerPure x s).edict = s.edict := by
+  unfold registerPure
+  split
+  · exact ⟨SameLinks.refl _, rfl, rfl, rfl⟩
+  · split
+    · exact ⟨SameLinks.refl _, rfl, rfl, rfl⟩
+    · split
+      · split
+        · exact ⟨sameLinks_setAttrs _ _ _, rfl, rfl, rfl⟩
+        · exact ⟨SameLinks.refl _, rfl, rfl, rfl⟩
+      · exact ⟨SameLinks.refl _, rfl, rfl, rfl⟩
+
+theorem fixRefPure_view (x : Id) (s : DState) :
+    SameLinks s.heap (fixRefPure x s).heap ∧ (fixRefPure x s).ownedL = s.ownedL ∧
+    (fixRefPure x s).top = s.top ∧ (fixRefPure x s).edict = s.edict := by
+  unfold fixRefPure
+  split
+  · exact ⟨SameLinks.refl _, rfl, rfl, rfl⟩
+  · split
+    · exact ⟨SameLinks.refl _, rfl, rfl, rfl⟩
+    · exact ⟨sameLinks_setAttrs _ _ _, rfl, rfl, rfl⟩
+
+theorem buildPure_view (x : Id) (s : DState) :
+    SameLinks s.heap (buildPure x s).heap ∧ (buildPure x s).ownedL = s.ownedL ∧
+    (buildPure x s).top = s.top ∧
+    (∀ q, ed (buildPure x s) q = if q = (s.heap x).qn then ed s q ++ [x] else ed s q) := by
+  unfold buildPure
+  have hreg : SameLinks (edAppend x s).heap (registerIfPure x (edAppend x s)).heap ∧
+      (registerIfPure x (edAppend x s)).ownedL = (edAppend x s).ownedL ∧
+      (registerIfPure x (edAppend x s)).top = (edAppend x s).top ∧
+      (registerIfPure x (edAppend x s)).edict = (edAppend x s).edict := by
+    unfold registerIfPure; split
+    · exact registerPure_view x _
+    · exact ⟨SameLinks.refl _, rfl, rfl, rfl⟩
+  obtain ⟨a1, a2, a3, a4⟩ := fixRefPure_view x (registerIfPure x (edAppend x s))
+  obtain ⟨b1, b2, b3, b4⟩ := hreg
+  refine ⟨SameLinks.trans b1 a1, a2.trans b2, a3.trans b3, ?_⟩
+  intro q
+  unfold ed
+  rw [a4, b4]
+  simp only [edAppend, edGet_edSet]
+  split
+  · rename_i e; rw [e]
+  · rfl
+
+theorem foldBuild_view : ∀ (l : List Id) (s : DState),
+    SameLinks s.heap (l.foldl (fun s x => buildPure x s) s).heap ∧
+    (l.foldl (fun s x => buildPure x s) s).ownedL = s.ownedL ∧
+    (l.foldl (fun s x => buildPure x s) s).top = s.top ∧
+    (∀ q, ed (l.foldl (fun s x => buildPure x s) s) q = ed s q ++ l.filter (fun y => (s.heap y).qn = q)) := by
+  intro l
+  induction l with
+  | nil => intro s; exact ⟨SameLinks.refl _, rfl, rfl, fun q => by simp⟩
+  | cons x r ih =>
+    intro s
+    obtain ⟨a1, a2, a3, a4⟩ := ih (buildPure x s)
+    obtain ⟨b1, b2, b3, b4⟩ := buildPure_view x s
+    refine ⟨SameLinks.trans b1 a1, a2.trans b2, a3.trans b3, ?_⟩
+    intro q
+    simp only [List.foldl_cons]
+    rw [a4 q, b4 q]
+    have hqn : ∀ y, ((buildPure x s).heap y).qn = (s.heap y).qn := fun y => (b1 y).2.2.2.2.2
+    simp only [hqn, List.filter_cons]
+    by_cases hq : q = (s.heap x).qn
+    · subst hq; simp
+    · simp [hq, Ne.symm hq]
+
+theorem foldOwned_view (v : Bool) : ∀ (l : List Id) (s : DState),
+    (l.foldl (fun s x => setOwned s x v) s).heap = s.heap ∧
+    (l.foldl (fun s x => setOwned s x v) s).edict = s.edict ∧
+    (l.foldl (fun s x => setOwned s x v) s).top = s.top ∧
+    (l.foldl (fun s x => setOwned s x v) s).sdict = s.sdict ∧
+    (∀ y, (l.foldl (fun s x => setOwned s x v) s).owned y = if y ∈ l then v else s.owned y) := by
+  intro l
+  induction l with
+  | nil => intro s; exact ⟨rfl, rfl, rfl, rfl, fun y => by simp⟩
+  | cons x r ih =>
+    intro s
+    obtain ⟨a1, a2, a3, a4, a5⟩ := ih (setOwned s x v)
+    refine ⟨a1, a2, a3, a4, ?_⟩
+    intro y
+    simp only [List.foldl_cons]
+    rw [a5 y, owned_setOwned]
+    by_cases hyr : y ∈ r
+    · simp [hyr]
+    · by_cases hyx : y = x
+      · simp [hyx]
+      · simp [hyr, hyx]
+
+/-! ### coherence of the element index and of ownerDocument -/
+
+/-- attached to the document: the top node is the node itself or one of its ancestors -/
+def Att (s : DState) (x : Id) : Prop := AncOrSelf s.heap s.top x
+
+/-- **the element index and ownerDocument agree with the tree**: for every qname the list
+    `element_dict[qname]` has no repetition and holds exactly the attached elements of that qname
+    (so it is a permutation of any duplicate-free enumeration of them, `coh_perm`); an element's
+    ownerDocument is the document exactly when it is attached.  (The top node itself is listed only
+    after an index rebuild from the top; nothing queries its type.) -/
+structure CohIdx (s : DState) : Prop where
+  top_elem : (s.heap s.top).kind = .elem
+  top_root : (s.heap s.top).parent = none
+  nodup : ∀ q, (ed s q).Nodup
+  mem_iff : ∀ q x, x ≠ s.top → (x ∈ ed s q ↔ Att s x ∧ (s.heap x).kind = .elem ∧ (s.heap x).qn = q)
+  top_mem : ∀ q, s.top ∈ ed s q → (s.heap s.top).qn = q
+  owned_iff : ∀ x, (s.heap x).kind = .elem → (s.owned x = true ↔ Att s x)
+
+theorem AncOrSelf.mono {h h' : Heap} (hp : ∀ y q, (h' y).parent = some q → (h y).parent = some q) {a x : Id}
+    (ha : AncOrSelf h' a x) : AncOrSelf h a x := by
+  induction ha with
+  | refl => exact AncOrSelf.refl
+  | step hpx _ ih => exact AncOrSelf.step (hp _ _ hpx) ih
+
+/-- the index after a subtree was cut off -/
+theorem coh_remove {s s' : DState} {p c : Id} {l : List Id}
+    (hI : Inv s.heap) (hC : CohIdx s) (hc : c ∈ (s.heap p).kids) (hI' : Inv s'.heap)
+    (htop : s'.top = s.top)
+    (hpar : ∀ y, (s'.heap y).parent = if y = c then none else (s.heap y).parent)
+    (hkind : ∀ y, (s'.heap y).kind = (s.heap y).kind) (hqn : ∀ y, (s'.heap y).qn = (s.heap y).qn)
+    (hl : ∀ x, x ∈ l ↔ AncOrSelf s'.heap c x ∧ (s'.heap x).kind = .elem)
+    (hnd' : ∀ q, (ed s' q).Nodup)
+    (hed : ∀ q y, y ∈ ed s' q ↔ y ∈ ed s q ∧
+      ¬ ((s.owned p = true ∧ (s.heap c).kind = .elem) ∧ y ∈ l ∧ (s.heap y).qn = q))
+    (how : ∀ y, s'.owned y = if y ∈ l then false else s.owned y) : CohIdx s' := by
+  have hpc : (s.heap c).parent = some p := (hI.parent_iff p c).mp hc
+  have hct : c ≠ s.top := by intro e; rw [e, hC.top_root] at hpc; cases hpc
+  have hkp : (s.heap p).kind = .elem := hI.parent_elem hpc
+  have hptop' : (s'.heap s.top).parent = none := by rw [hpar]; simp [Ne.symm hct, hC.top_root]
+  have hpc' : (s'.heap c).parent = none := by rw [hpar]; simp
+  -- (R) attached afterwards = attached before and not below c
+  have hR1 : ∀ x, AncOrSelf s'.heap s.top x → Att s x := by
+    intro x ha
+    exact AncOrSelf.mono (h := s.heap) (fun y q hy => by
+      rw [hpar] at hy; split at hy
+      · cases hy
+      · exact hy) ha
+  have hR2 : ∀ x, AncOrSelf s'.heap s.top x → ¬ AncOrSelf s'.heap c x := by
+    intro x ha hb
+    rcases anc_chain ha hb with h1 | h1
+    · exact hct (anc_of_no_parent hpc' h1)
+    · exact hct (anc_of_no_parent hptop' h1).symm
+  have hR3 : ∀ x, Att s x → ¬ AncOrSelf s'.heap c x → AncOrSelf s'.heap s.top x := by
+    intro x ha
+    induction ha with
+    | refl => intro _; exact AncOrSelf.refl
+    | @step x q hpx _ ih =>
+      intro hn
+      have hxc : x ≠ c := fun e => hn (e ▸ AncOrSelf.refl)
+      have hpx' : (s'.heap x).parent = some q := by rw [hpar]; simp [hxc, hpx]
+      exact AncOrSelf.step hpx' (ih (fun hq => hn (AncOrSelf.step hpx' hq)))
+  have hR : ∀ x, Att s' x ↔ Att s x ∧ ¬ AncOrSelf s'.heap c x := by
+    intro x; unfold Att; rw [htop]
+    exact ⟨fun ha => ⟨hR1 x ha, hR2 x ha⟩, fun ⟨ha, hn⟩ => hR3 x ha hn⟩
+  -- when nothing is dropped from the index, no attached element was below c
+  have hnone : ¬ (s.owned p = true ∧ (s.heap c).kind = .elem) → ∀ x, (s.heap x).kind = .elem → Att s x →
+      ¬ AncOrSelf s'.heap c x := by
+    intro hD x hxe hax hcx
+    by_cases hce : (s.heap c).kind = .elem
+    · have hop : ¬ s.owned p = true := fun h => hD ⟨h, hce⟩
+      have hnp : ¬ Att s p := fun h => hop ((hC.owned_iff p hkp).mpr h)
+      have hcx0 : AncOrSelf s.heap c x := AncOrSelf.mono (fun y q hy => by
+        rw [hpar] at hy; split at hy
+        · cases hy
+        · exact hy) hcx
+      rcases anc_chain hax hcx0 with h1 | h1
+      · cases h1 with
+        | refl => exact hct rfl
+        | step hp' hrest => rw [hpc] at hp'; cases hp'; exact hnp hrest
+      · exact hct (anc_of_no_parent hC.top_root h1).symm
+    · have hk0 : (s'.heap c).kids = [] := hI'.childless c (by rw [hkind]; exact hce)
+      have := AncOrSelf.eq_of_no_kids hI' hk0 hcx
+      rw [this] at hxe; exact hce hxe
+  refine ⟨by rw [htop, hkind]; exact hC.top_elem, by rw [htop]; exact hptop', hnd', ?_, ?_, ?_⟩
+  · intro q x hxt
+    rw [htop] at hxt
+    rw [hed q x, hC.mem_iff q x hxt, hR x, hl x, hkind, hqn]
+    by_cases hD : s.owned p = true ∧ (s.heap c).kind = .elem
+    · simp only [hD, true_and]
+      constructor
+      · rintro ⟨⟨ha, hk, hq⟩, hn⟩
+        exact ⟨⟨ha, fun hcx => hn ⟨⟨hcx, hk⟩, hq⟩⟩, hk, hq⟩
+      · rintro ⟨⟨ha, hn⟩, hk, hq⟩
+        exact ⟨⟨ha, hk, hq⟩, fun ⟨⟨hcx, _⟩, _⟩ => hn hcx⟩
+    · simp only [hD, false_and, not_false_eq_true, and_true]
+      constructor
+      · rintro ⟨ha, hk, hq⟩; exact ⟨⟨ha, hnone hD x hk ha⟩, hk, hq⟩
+      · rintro ⟨⟨ha, _⟩, hk, hq⟩; exact ⟨ha, hk, hq⟩
+  · intro q ht
+    rw [htop] at ht ⊢
+    rw [hqn]
+    exact hC.top_mem q ((hed q s.top).mp ht).1
+  · intro x hxe
+    rw [hkind] at hxe
+    rw [how x, hR x]
+    by_cases hcx : AncOrSelf s'.heap c x
+    · have : x ∈ l := (hl x).mpr ⟨hcx, by rw [hkind]; exact hxe⟩
+      simp [this, hcx]
+    · have : x ∉ l := fun hm => hcx ((hl x).mp hm).1
+      simp [this, hcx, hC.owned_iff x hxe]
+
+/-- the index after a detached subtree was hung under `p` -/
+theorem coh_attach {s s' : DState} {p c : Id} {l : List Id}
+    (hC : CohIdx s) (hI' : Inv s'.heap) (hA' : Acyclic s'.heap)
+    (hkp : (s.heap p).kind = .elem) (hdet : (s.heap c).parent = none) (hct : c ≠ s.top)
+    (htop : s'.top = s.top)
+    (hpar : ∀ y, (s'.heap y).parent = if y = c then some p else (s.heap y).parent)
+    (hkind : ∀ y, (s'.heap y).kind = (s.heap y).kind) (hqn : ∀ y, (s'.heap y).qn = (s.heap y).qn)
+    (hl : ∀ x, x ∈ l ↔ AncOrSelf s'.heap c x ∧ (s'.heap x).kind = .elem) (hlnd : l.Nodup)
+    (hed : ∀ q, ed s' q = if s.owned p = true ∧ (s.heap c).kind = .elem
+      then ed s q ++ l.filter (fun y => (s.heap y).qn = q) else ed s q)
+    (how : ∀ y, s'.owned y = if y ∈ l then s.owned p else s.owned y) : CohIdx s' := by
+  obtain ⟨d, hd⟩ := hA'
+  have hpc' : (s'.heap c).parent = some p := by rw [hpar]; simp
+  have hptop' : (s'.heap s.top).parent = none := by rw [hpar]; simp [Ne.symm hct, hC.top_root]
+  have hup : ∀ x, Att s x → AncOrSelf s'.heap s.top x := by
+    intro x ha
+    induction ha with
+    | refl => exact AncOrSelf.refl
+    | @step x q hpx _ ih =>
+      have hxc : x ≠ c := by intro e; rw [e, hdet] at hpx; cases hpx
+      exact AncOrSelf.step (by rw [hpar]; simp [hxc, hpx]) ih
+  -- (A) attached afterwards = attached before, or below c when p is attached
+  have hA1 : ∀ x, AncOrSelf s'.heap s.top x → Att s x ∨ (Att s p ∧ AncOrSelf s'.heap c x) := by
+    intro x ha
+    induction ha with
+    | refl => exact Or.inl AncOrSelf.refl
+    | @step x q hpx _ ih =>
+      by_cases hxc : x = c
+      · subst hxc
+        rw [hpc'] at hpx; cases hpx
+        rcases ih with h1 | ⟨h1, _⟩ <;> exact Or.inr ⟨h1, AncOrSelf.refl⟩
+      · have hpx0 : (s.heap x).parent = some q := by rw [hpar] at hpx; simpa [hxc] using hpx
+        rcases ih with h1 | ⟨h1, h2⟩
+        · exact Or.inl (AncOrSelf.step hpx0 h1)
+        · exact Or.inr ⟨h1, AncOrSelf.step hpx h2⟩
+  have hA2 : ∀ x, Att s p → AncOrSelf s'.heap c x → AncOrSelf s'.heap s.top x := by
+    intro x hp ha
+    induction ha with
+    | refl => exact AncOrSelf.step hpc' (hup p hp)
+    | step hpx _ ih => exact AncOrSelf.step hpx ih
+  have hA : ∀ x, Att s' x ↔ Att s x ∨ (Att s p ∧ AncOrSelf s'.heap c x) := by
+    intro x; unfold Att; rw [htop]
+    exact ⟨hA1 x, fun h => h.elim (hup x) (fun ⟨h1, h2⟩ => hA2 x h1 h2)⟩
+  -- nothing that was attached lies below c
+  have hold : ∀ x, AncOrSelf s'.heap c x → AncOrSelf s.heap c x := by
+    intro x ha
+    induction ha with
+    | refl => exact AncOrSelf.refl
+    | @step x q hpx hrest ih =>
+      by_cases hxc : x = c
+      · subst hxc
+        rw [hpc'] at hpx; cases hpx
+        have h1 := anc_depth hd hrest
+        have h2 := hd x p hpc'
+        omega
+      · exact AncOrSelf.step (by rw [hpar] at hpx; simpa [hxc] using hpx) ih
+  have hdisj : ∀ x, Att s x → ¬ AncOrSelf s'.heap c x := by
+    intro x ha hb
+    rcases anc_chain ha (hold x hb) with h1 | h1
+    · exact hct (anc_of_no_parent hdet h1)
+    · exact hct (anc_of_no_parent hC.top_root h1).symm
+  have htopl : s.top ∉ l := by
+    intro hm
+    exact hct (anc_of_no_parent hptop' ((hl s.top).mp hm).1).symm
+  have hop : s.owned p = true ↔ Att s p := hC.owned_iff p hkp
+  refine ⟨by rw [htop, hkind]; exact hC.top_elem, by rw [htop]; exact hptop', ?_, ?_, ?_, ?_⟩
+  · intro q
+    rw [hed q]
+    split
+    · rw [List.nodup_append]
+      refine ⟨hC.nodup q, hlnd.filter _, ?_⟩
+      intro a ha b hb e
+      subst e
+      have hbl : a ∈ l := (List.mem_filter.mp hb).1
+      have hat : a ≠ s.top := fun e => htopl (e ▸ hbl)
+      exact hdisj a ((hC.mem_iff q a hat).mp ha).1 ((hl a).mp hbl).1
+    · exact hC.nodup q
+  · intro q x hxt
+    rw [htop] at hxt
+    rw [hed q, hA x, hkind, hqn]
+    by_cases hD : s.owned p = true ∧ (s.heap c).kind = .elem
+    · simp only [hD, and_self, if_true, List.mem_append, List.mem_filter, decide_eq_true_eq,
+        hC.mem_iff q x hxt, hl x, hkind]
+      have hp : Att s p := hop.mp hD.1
+      constructor
+      · rintro (⟨ha, hk, hq⟩ | ⟨⟨hcx, hk⟩, hq⟩)
+        · exact ⟨Or.inl ha, hk, hq⟩
+        · exact ⟨Or.inr ⟨hp, hcx⟩, hk, hq⟩
+      · rintro ⟨(ha | ⟨_, hcx⟩), hk, hq⟩
+        · exact Or.inl ⟨ha, hk, hq⟩
+        · exact Or.inr ⟨⟨hcx, hk⟩, hq⟩
+    · simp only [hD, if_false, hC.mem_iff q x hxt]
+      constructor
+      · rintro ⟨ha, hk, hq⟩; exact ⟨Or.inl ha, hk, hq⟩
+      · rintro ⟨(ha | ⟨hp, hcx⟩), hk, hq⟩
+        · exact ⟨ha, hk, hq⟩
+        · exfalso
+          apply hD
+          refine ⟨hop.mpr hp, ?_⟩
+          by_cases hce : (s.heap c).kind = .elem
+          · exact hce
+          · have hk0 : (s'.heap c).kids = [] := hI'.childless c (by rw [hkind]; exact hce)
+            have := AncOrSelf.eq_of_no_kids hI' hk0 hcx
+            rw [this] at hk; exact absurd hk hce
+  · intro q ht
+    rw [htop] at ht ⊢
+    rw [hqn]
+    apply hC.top_mem q
+    rw [hed q] at ht
+    split at ht
+    · rcases List.mem_append.mp ht with h1 | h1
+      · exact h1
+      · exact absurd (List.mem_filter.mp h1).1 htopl
+    · exact ht
+  · intro x hxe
+    rw [hkind] at hxe
+    rw [how x, hA x]
+    by_cases hcx : AncOrSelf s'.heap c x
+    · have hm : x ∈ l := (hl x).mpr ⟨hcx, by rw [hkind]; exact hxe⟩
+      have hna : ¬ Att s x := fun ha => hdisj x ha hcx
+      simp only [hm, if_true, hop, hna, false_or, hcx, and_true]
+    · have hm : x ∉ l := fun hm => hcx ((hl x).mp hm).1
+      simp only [hm, if_false, hcx, and_false, or_false]
+      exact hC.owned_iff x hxe
+
 end OdfModel.Props.C09
